@@ -87,3 +87,15 @@ Theorem C14_no_inplace_arithmetic_on_stored_arrays : List.length T7inplace.inpla
   forallb C14_tie.not_in_fit_algorithm T7inplace.inplace_sites = true.
 Proof. exact (conj (f_equal (@List.length _) C14_tie.inplace_sites_known) (f_equal (forallb _) C14_tie.inplace_sites_known)). Qed.
 Print Assumptions C14_no_inplace_arithmetic_on_stored_arrays.
+
+(* the `sorted` flags that _sort_by_variance sets are reset by every _fit_algorithm (effects table regenerated from the source) *)
+Theorem C14_postfit_flags_reset_by_fit : forallb C14_tie.flag_reset_by_fit C14_tie.postfit_flags = true.
+Proof. exact C14_tie.postfit_flags_reset_by_fit. Qed.
+Print Assumptions C14_postfit_flags_reset_by_fit.
+
+(* no method outside the fit family keeps a cache or any other state a later answer could inherit: the complete list of
+   such writers, over every class in the effects table, is the known bookkeeping *)
+Theorem C14_no_state_outside_fit : List.length C14_tie.nonfit_writers = 10%nat /\
+  forallb C14_tie.writer_method_known C14_tie.nonfit_writers = true.
+Proof. exact (conj (f_equal (@List.length _) C14_tie.nonfit_writers_known) (f_equal (forallb _) C14_tie.nonfit_writers_known)). Qed.
+Print Assumptions C14_no_state_outside_fit.
